@@ -433,7 +433,7 @@ def run(ctx):
     import time
     res = {}
     for k, p in procs.items():
-        left = max(5.0, ctx.n(170, 2400) - ctx.elapsed()) if ctx.quick else 2400
+        left = max(5.0, ctx.n(120, 2400) - ctx.elapsed()) if ctx.quick else 2400
         res[k] = _collect(p, left)
     ctx.extra["runtime_tests"] = {k: (v if "error" in v else {kk: vv for kk, vv in v.items() if kk not in ("deviations", "runs")})
                                   for k, v in res.items()}
